@@ -167,6 +167,7 @@ type rewriter struct {
 	filename  string
 	repo      string
 	stmtYield bool
+	litFrom, litTo token.Pos // the go-func literal whose body is being given statement yields
 	mapMon    bool
 	cfg       *config
 	n         int
@@ -679,7 +680,9 @@ func (r *rewriter) rewriteGo(n *ast.GoStmt) ast.Stmt {
 	switch f := c.Fun.(type) {
 	case *ast.FuncLit:
 		if r.stmtYield {
+			r.litFrom, r.litTo = f.Pos(), f.End()
 			r.addStmtYields(f.Body)
+			r.litFrom, r.litTo = token.NoPos, token.NoPos
 		}
 	case *ast.Ident:
 		// local func variable or package func: evaluating later is equivalent unless reassigned; hoist variables
@@ -709,6 +712,40 @@ func (r *rewriter) rewriteGo(n *ast.GoStmt) ast.Stmt {
 	return &ast.BlockStmt{List: append(pre, goCall)}
 }
 
+// splitSharedRMW: `v = f(..., v, ...)` in a go-func body, v declared outside of it (a variable the sibling
+// threads share), is a read and a later write of v, not one step: the read is moved into a statement of its own
+// and a yield put between the two, so that the explorer can interleave another thread there.
+func (r *rewriter) splitSharedRMW(s ast.Stmt) []ast.Stmt {
+	as, ok := s.(*ast.AssignStmt)
+	if !ok || as.Tok != token.ASSIGN || len(as.Lhs) != 1 || len(as.Rhs) != 1 || r.litFrom == token.NoPos {
+		return nil
+	}
+	id, ok := as.Lhs[0].(*ast.Ident)
+	if !ok {
+		return nil
+	}
+	obj, isVar := r.info.Uses[id].(*types.Var)
+	if !isVar || (obj.Pos() >= r.litFrom && obj.Pos() < r.litTo) {
+		return nil
+	}
+	c, ok := as.Rhs[0].(*ast.CallExpr)
+	if !ok {
+		return nil
+	}
+	for i, a := range c.Args {
+		if aid, ok := a.(*ast.Ident); ok && r.info.Uses[aid] == types.Object(obj) {
+			tmp := r.fresh("rmw")
+			c.Args[i] = ast.NewIdent(tmp)
+			r.note(s.Pos(), "shared read-modify-write of "+id.Name+" split")
+			return []ast.Stmt{
+				&ast.AssignStmt{Lhs: []ast.Expr{ast.NewIdent(tmp)}, Tok: token.DEFINE, Rhs: []ast.Expr{ast.NewIdent(id.Name)}},
+				&ast.ExprStmt{X: call(vrtSel("Yield"), strLit(r.site(s.Pos())+" between the read and the write of "+id.Name))},
+			}
+		}
+	}
+	return nil
+}
+
 // addStmtYields inserts vrt.Yield before every statement of a go-func body (recursively into blocks).
 func (r *rewriter) addStmtYields(b *ast.BlockStmt) {
 	if b == nil {
@@ -732,6 +769,7 @@ func (r *rewriter) addStmtYields(b *ast.BlockStmt) {
 		if _, isDecl := s.(*ast.DeclStmt); !isDecl {
 			out = append(out, &ast.ExprStmt{X: call(vrtSel("Yield"), strLit(r.site(s.Pos())))})
 		}
+		out = append(out, r.splitSharedRMW(s)...)
 		out = append(out, s)
 	}
 	b.List = out
